@@ -162,11 +162,22 @@ def miri_runs(ctx, n_seeds, workloads, rates, threads=3, calls=24):
     return {"executions": done, "failed": len(fails), "wall_s": round(time.time() - t0, 1), "workload_seeds": list(workloads), "miri_seeds": f"0..{n_seeds}", "preemption_rates": list(rates), "threads": threads, "calls_per_thread": calls, "workload_kinds": {str(w): miri_mode(w) for w in workloads}}
 
 
+def gate_builds(verif):
+    """name -> (crate directory, argv): the std gate, the same gate under tz-rs's alloc-only and core-only
+    feature sets (an auto trait lost in one configuration only is still lost), and the nightly Freeze gate."""
+    return {
+        "autotraits": ("autotraits", ["cargo", "build", "--offline"]),
+        "autotraits-alloc": ("autotraits", ["cargo", "build", "--offline", "--no-default-features", "--features", "alloc"]),
+        "autotraits-core": ("autotraits", ["cargo", "build", "--offline", "--no-default-features"]),
+        "autotraits-nightly": ("autotraits-nightly", ["cargo", "+nightly", "build", "--offline", "--target-dir", os.path.join(verif, "target", "nightly")]),
+    }
+
+
 def autotraits_gate(ctx):
     """Tier C: compile gate. tz-rs builds but the gate does not => a public type lost an auto trait."""
     res = {}
-    for name, argv in (("autotraits", ["cargo", "build", "--offline"]), ("autotraits-nightly", ["cargo", "+nightly", "build", "--offline", "--target-dir", os.path.join(ctx.verif, "target", "nightly")])):
-        rc, out = o.sh(argv, cwd=os.path.join(ctx.verif, name))
+    for name, (crate, argv) in gate_builds(ctx.verif).items():
+        rc, out = o.sh(argv, cwd=os.path.join(ctx.verif, crate))
         res[name] = "builds" if rc == 0 else "FAILS"
         if rc != 0:
             ok, _ = o.tz_rs_builds(ctx.verif)
@@ -179,7 +190,7 @@ def autotraits_gate(ctx):
             os.makedirs(ctx.replays, exist_ok=True)
             path = os.path.join(ctx.replays, f"C15-{name}.autotraits.txt")
             with open(path, "w") as f:
-                f.write(f"# property C15\n# oracle C15.autotraits\n# replay: cd /verif/{name} && {' '.join(argv)}\ngate {name}\n# ---- compiler output\n")
+                f.write(f"# property C15\n# oracle C15.autotraits\n# replay: cd /verif/{crate} && {' '.join(argv)}\ngate {name}\n# ---- compiler output\n")
                 for line in out.splitlines()[-80:]:
                     f.write("# " + line + "\n")
             lines = [l for l in out.splitlines() if "error" in l or "cannot be" in l or "is not satisfied" in l or "within" in l]
@@ -391,8 +402,8 @@ def replay_special(verif, path):
             kv.setdefault(k, v)
     if path.endswith(".autotraits.txt"):
         name = kv.get("gate", "autotraits")
-        argv = ["cargo", "build", "--offline"] if name == "autotraits" else ["cargo", "+nightly", "build", "--offline", "--target-dir", os.path.join(verif, "target", "nightly")]
-        rc, out = o.sh(argv, cwd=os.path.join(verif, name))
+        crate, argv = gate_builds(verif).get(name, gate_builds(verif)["autotraits"])
+        rc, out = o.sh(argv, cwd=os.path.join(verif, crate))
         print(out[-2000:])
         if rc != 0:
             print(f"VIOLATION property=C15 replay={path}")
